@@ -15,7 +15,9 @@
 //!     `R<i>,<s|*>` / `M..` / `V..` / `P..` / `C..`  node rule for `USE names[i]` on shard s: reject (ERROR) /
 //!            acknowledge ANOTHER keyspace / answer Void / answer with the name upper-cased / close the connection (once)
 //!     `X`    drop all rules      `D` hold the `USE` answers on connections accepted from now on
-//!     `H`    wait until a held `USE` is pending at the node      `G` release the held answers
+//!     `H`    wait until a held `USE` is pending at the node      `G` release the held answers (oldest first)
+//!     `E` / `E<k>` hold back all / the next k `USE` answers on the EXISTING connections (a call then times out)
+//!     `O<s>,<k>` the node answers the k-th held `USE` of shard s's connection now (k > 0: out of order) → `o` | `o-`
 //!     `Y<i>,<s>` a user statement `USE names[i]` on the connection of shard s (S mode) → `y` | `y!`
 //!     `L`    list the live connections at the node with the `USE` statements each acknowledged: `l[i>j,...]` (sorted)
 //!   `S<n>@e.e.e`: what the node does with the first accepted connections: `x` = refuse (accept and close),
@@ -116,8 +118,14 @@ struct ConnRec {
     ks: Option<String>,
     acked: Vec<String>,
     answered: usize,
-    held: bool,
-    hold_pending: bool,
+    /// how many of the next `USE` statements are held back (u32::MAX = all until released)
+    hold: u32,
+    /// held `USE` statements (stream id, text), oldest first
+    pending: Vec<(i16, String)>,
+    /// positions in `pending` to answer now (out of order if not 0); `release` = answer all, oldest first
+    answer_now: Vec<usize>,
+    release: bool,
+    wake: Arc<Notify>,
     kill: Arc<Notify>,
 }
 
@@ -207,6 +215,7 @@ impl Node {
                 #[allow(deprecated)]
                 let _ = sock.set_linger(Some(Duration::ZERO));
                 let kill = Arc::new(Notify::new());
+                let wake = Arc::new(Notify::new());
                 let rule = {
                     let mut s = st2.lock().unwrap();
                     let k = s.accepted;
@@ -229,15 +238,18 @@ impl Node {
                 };
                 let conn = {
                     let mut s = st2.lock().unwrap();
-                    let held = s.hold_new;
+                    let hold = if s.hold_new { u32::MAX } else { 0 };
                     s.conns.push(ConnRec {
                         shard: shard.map(|x| x.0),
                         live: true,
                         ks: None,
                         acked: vec![],
                         answered: 0,
-                        held,
-                        hold_pending: false,
+                        hold,
+                        pending: vec![],
+                        answer_now: vec![],
+                        release: false,
+                        wake: Arc::clone(&wake),
                         kill: Arc::clone(&kill),
                     });
                     s.conns.len() - 1
@@ -246,58 +258,111 @@ impl Node {
                 let clock = Arc::clone(&clock2);
                 tokio::spawn(async move {
                     let dead = |st: &Arc<Mutex<State>>| st.lock().unwrap().conns[conn].live = false;
+                    // Frames are cut out of `buf`; reads are plain `read` calls (cancel-safe), so the task can also
+                    // be woken to answer held statements - in order or not - while it waits for the next frame.
+                    let mut buf: Vec<u8> = Vec::new();
+                    let mut tmp = vec![0u8; 8192];
                     loop {
-                        let mut hdr = [0u8; 9];
-                        tokio::select! {
-                            _ = kill.notified() => { dead(&st); return; }
-                            r = sock.read_exact(&mut hdr) => { if r.is_err() { dead(&st); return; } }
-                        }
-                        let len = u32::from_be_bytes([hdr[5], hdr[6], hdr[7], hdr[8]]) as usize;
-                        let mut body = vec![0u8; len];
-                        if sock.read_exact(&mut body).await.is_err() {
-                            dead(&st);
-                            return;
-                        }
-                        let stream = i16::from_be_bytes([hdr[2], hdr[3]]);
-                        let parsed = parse_request(hdr[4], &body, false);
-                        let reply = match &parsed {
-                            Parsed::Options => Reply::Frame(RESP_SUPPORTED, body_supported_ext(false, shard, shard.map(|_| addr.port()))),
-                            Parsed::Startup(_) | Parsed::Register(_) => Reply::Frame(RESP_READY, vec![]),
-                            Parsed::Query { text, .. } => {
-                                if text.starts_with("USE ") {
-                                    // a held connection answers only after the gate is released
-                                    loop {
-                                        let held = {
-                                            let mut s = st.lock().unwrap();
-                                            let h = s.conns[conn].held;
-                                            s.conns[conn].hold_pending = h;
-                                            h
-                                        };
-                                        if !held {
-                                            break;
-                                        }
-                                        tokio::select! {
-                                            _ = kill.notified() => { dead(&st); return; }
-                                            _ = tokio::time::sleep(Duration::from_millis(2)) => {}
-                                        }
+                        // 1. held statements the script wants answered now
+                        let due: Vec<(i16, String)> = {
+                            let mut s = st.lock().unwrap();
+                            let c = &mut s.conns[conn];
+                            let mut due = Vec::new();
+                            if c.release {
+                                c.release = false;
+                                c.hold = 0;
+                                c.answer_now.clear();
+                                due.append(&mut c.pending);
+                            } else {
+                                let mut idx = std::mem::take(&mut c.answer_now);
+                                idx.sort_unstable_by(|a, b| b.cmp(a));
+                                let mut taken = Vec::new();
+                                for i in idx {
+                                    if i < c.pending.len() {
+                                        taken.push(c.pending.remove(i));
                                     }
                                 }
-                                let mut s = st.lock().unwrap();
-                                s.texts.push(text.clone());
-                                Self::answer_query(&mut s, conn, text, &clock)
+                                taken.reverse();
+                                due = taken;
                             }
-                            _ => Reply::Frame(RESP_ERROR, body_error(0x000A, "unsupported by the scripted node", &[])),
+                            due
                         };
-                        match reply {
-                            Reply::Frame(op, b) => {
-                                if sock.write_all(&frame(stream, op, &b)).await.is_err() {
+                        for (stream, text) in due {
+                            let reply = {
+                                let mut s = st.lock().unwrap();
+                                Self::answer_query(&mut s, conn, &text, &clock)
+                            };
+                            match reply {
+                                Reply::Frame(op, b) => {
+                                    if sock.write_all(&frame(stream, op, &b)).await.is_err() {
+                                        dead(&st);
+                                        return;
+                                    }
+                                }
+                                Reply::Close => {
                                     dead(&st);
                                     return;
                                 }
                             }
-                            Reply::Close => {
-                                dead(&st);
-                                return;
+                        }
+                        // 2. complete frames received so far
+                        let mut progressed = false;
+                        while buf.len() >= 9 {
+                            let len = u32::from_be_bytes([buf[5], buf[6], buf[7], buf[8]]) as usize;
+                            if buf.len() < 9 + len {
+                                break;
+                            }
+                            progressed = true;
+                            let hdr: Vec<u8> = buf[..9].to_vec();
+                            let body: Vec<u8> = buf[9..9 + len].to_vec();
+                            buf.drain(..9 + len);
+                            let stream = i16::from_be_bytes([hdr[2], hdr[3]]);
+                            let parsed = parse_request(hdr[4], &body, false);
+                            let reply = match &parsed {
+                                Parsed::Options => Some(Reply::Frame(RESP_SUPPORTED, body_supported_ext(false, shard, shard.map(|_| addr.port())))),
+                                Parsed::Startup(_) | Parsed::Register(_) => Some(Reply::Frame(RESP_READY, vec![])),
+                                Parsed::Query { text, .. } => {
+                                    let mut s = st.lock().unwrap();
+                                    s.texts.push(text.clone());
+                                    if text.starts_with("USE ") && s.conns[conn].hold > 0 {
+                                        // held back: answered when the script says so
+                                        if s.conns[conn].hold != u32::MAX {
+                                            s.conns[conn].hold -= 1;
+                                        }
+                                        s.conns[conn].pending.push((stream, text.clone()));
+                                        None
+                                    } else {
+                                        Some(Self::answer_query(&mut s, conn, text, &clock))
+                                    }
+                                }
+                                _ => Some(Reply::Frame(RESP_ERROR, body_error(0x000A, "unsupported by the scripted node", &[]))),
+                            };
+                            match reply {
+                                Some(Reply::Frame(op, b)) => {
+                                    if sock.write_all(&frame(stream, op, &b)).await.is_err() {
+                                        dead(&st);
+                                        return;
+                                    }
+                                }
+                                Some(Reply::Close) => {
+                                    dead(&st);
+                                    return;
+                                }
+                                None => {}
+                            }
+                        }
+                        if progressed {
+                            continue;
+                        }
+                        // 3. wait for bytes, a wake-up or the kill
+                        tokio::select! {
+                            _ = kill.notified() => { dead(&st); return; }
+                            _ = wake.notified() => {}
+                            r = sock.read(&mut tmp) => {
+                                match r {
+                                    Ok(0) | Err(_) => { dead(&st); return; }
+                                    Ok(n) => buf.extend_from_slice(&tmp[..n]),
+                                }
                             }
                         }
                     }
@@ -508,9 +573,11 @@ fn pool_script(rng: &mut Rng, sharded: bool, n: u64, nvalid: usize, has_bad: boo
     };
     steps.push("W".into());
     let mut ks_set = has_init;
+    // all connections of an unsharded pool still have the same history (no loss yet)
+    let mut symmetric = true;
     let rounds = rng.range(2, 5);
     for _ in 0..rounds {
-        match rng.below(13) {
+        match rng.below(14) {
             // plain switch
             0 | 1 => {
                 steps.push(format!("U{}", rng.below(nvalid as u64)));
@@ -519,6 +586,7 @@ fn pool_script(rng: &mut Rng, sharded: bool, n: u64, nvalid: usize, has_bad: boo
             }
             // connection loss and refill
             2 | 3 => {
+                symmetric = false;
                 steps.push(format!("K{}", shard(rng)));
                 steps.push("W".into());
                 queries(rng, &mut steps);
@@ -548,6 +616,7 @@ fn pool_script(rng: &mut Rng, sharded: bool, n: u64, nvalid: usize, has_bad: boo
             }
             // a connection is lost while the USE is on it
             6 | 7 => {
+                symmetric = false;
                 let i = rng.below(nvalid as u64);
                 steps.push(format!("C{},{}", i, any(rng)));
                 steps.push(format!("U{}", i));
@@ -558,6 +627,7 @@ fn pool_script(rng: &mut Rng, sharded: bool, n: u64, nvalid: usize, has_bad: boo
             }
             // a new connection is still having its keyspace set when the next use_keyspace arrives
             8 | 9 | 10 if ks_set => {
+                symmetric = false;
                 steps.push("D".into());
                 steps.push(format!("K{}", shard(rng)));
                 steps.push("H".into());
@@ -572,10 +642,25 @@ fn pool_script(rng: &mut Rng, sharded: bool, n: u64, nvalid: usize, has_bad: boo
                 steps.push("W".into());
                 queries(rng, &mut steps);
             }
-            // a user statement `USE x` on one connection, then the session's own use_keyspace(x)
-            11 if sharded => {
+            // the node holds back the USE answers on the published connections: the call times out (5 s) with its
+            // USE in flight; after the release it is answered, before anything written later
+            12 if rng.chance(1, 7) => {
+                steps.push("E".into());
+                steps.push(format!("U{}", rng.below(nvalid as u64)));
+                steps.push("G".into());
+                queries(rng, &mut steps);
+                steps.push(format!("U{}", rng.below(nvalid as u64)));
+                ks_set = true;
+                queries(rng, &mut steps);
+            }
+            // a user statement `USE x` on one connection, then the session's own use_keyspace(x). On an unsharded
+            // pool the connection is chosen at random: only while all connections still have the same history
+            11 if sharded || n == 1 || symmetric => {
                 let i = rng.below(nvalid as u64);
-                steps.push(format!("Y{},{}", i, shard(rng)));
+                steps.push(format!("Y{},{}", i, if sharded { shard(rng) } else { 0 }));
+                if !sharded {
+                    symmetric = false;
+                }
                 queries(rng, &mut steps);
                 steps.push(format!("U{}", i));
                 ks_set = true;
@@ -1025,11 +1110,12 @@ async fn run_pool(w: &[&str], race: bool, progress: &Mutex<String>, peek: &Mutex
                 let i: usize = i.parse().ok()?;
                 let sh: u32 = sh.parse().ok()?;
                 let (name, cs) = names.get(i)?;
-                if !spec_valid(name) || !sharded {
+                if !spec_valid(name) {
                     return None;
                 }
                 let start = node.tick();
-                let r = pool.query_on_shard(sh, &spec_statement(name, *cs)).await;
+                let stmt = spec_statement(name, *cs);
+                let r = if sharded { pool.query_on_shard(sh, &stmt).await } else { pool.query_on_random(&stmt).await };
                 let end = node.tick();
                 // for the oracle this is a keyspace change that started and did not (yet) return Ok
                 calls.push(UseCall { idx: i, start, end, ok: false });
@@ -1075,10 +1161,43 @@ async fn run_pool(w: &[&str], race: bool, progress: &Mutex<String>, peek: &Mutex
             }
             "X" => node.st.lock().unwrap().rules.clear(),
             "D" => node.st.lock().unwrap().hold_new = true,
+            "E" => {
+                // hold back the `USE` answers on the EXISTING connections too: all of them (`E`), or only the next
+                // k (`E<k>`): later ones are then answered while the held ones are still in flight (out of order)
+                let k: u32 = if arg.is_empty() { u32::MAX } else { arg.parse().ok()? };
+                for c in node.st.lock().unwrap().conns.iter_mut().filter(|c| c.live) {
+                    c.hold = k;
+                }
+            }
+            "O" => {
+                // the node answers, now, the k-th held `USE` of the connection of shard s (k > 0: out of order)
+                let (sh, k) = arg.split_once(',')?;
+                let (sh, k): (u16, usize) = (sh.parse().ok()?, k.parse().ok()?);
+                let target = {
+                    let mut st = node.st.lock().unwrap();
+                    let pos = st.conns.iter().position(|c| c.live && c.pending.len() > k && (!sharded || c.shard == Some(sh)));
+                    pos.map(|i| {
+                        st.conns[i].answer_now.push(k);
+                        (i, Arc::clone(&st.conns[i].wake), st.conns[i].pending.len())
+                    })
+                };
+                match target {
+                    Some((i, wake, before)) => {
+                        wake.notify_one();
+                        let t0 = std::time::Instant::now();
+                        while node.st.lock().unwrap().conns[i].pending.len() >= before && t0.elapsed() < Duration::from_millis(1000) {
+                            tokio::time::sleep(Duration::from_millis(1)).await;
+                        }
+                        tokio::time::sleep(Duration::from_millis(3)).await;
+                        out.push("o".into());
+                    }
+                    None => out.push("o-".into()),
+                }
+            }
             "H" => {
                 let t0 = std::time::Instant::now();
                 loop {
-                    if node.st.lock().unwrap().conns.iter().any(|c| c.live && c.hold_pending) {
+                    if node.st.lock().unwrap().conns.iter().any(|c| c.live && !c.pending.is_empty()) {
                         out.push("h".into());
                         break;
                     }
@@ -1090,11 +1209,21 @@ async fn run_pool(w: &[&str], race: bool, progress: &Mutex<String>, peek: &Mutex
                 }
             }
             "G" => {
-                let mut st = node.st.lock().unwrap();
-                st.hold_new = false;
-                for c in st.conns.iter_mut() {
-                    c.held = false;
+                {
+                    let mut st = node.st.lock().unwrap();
+                    st.hold_new = false;
+                    for c in st.conns.iter_mut() {
+                        c.release = true;
+                        c.hold = 0;
+                        c.wake.notify_one();
+                    }
                 }
+                // the held statements are answered, oldest first
+                let t0 = std::time::Instant::now();
+                while node.st.lock().unwrap().conns.iter().any(|c| c.live && (!c.pending.is_empty() || c.release)) && t0.elapsed() < Duration::from_millis(1000) {
+                    tokio::time::sleep(Duration::from_millis(1)).await;
+                }
+                tokio::time::sleep(Duration::from_millis(3)).await;
             }
             "L" => {
                 let st = node.st.lock().unwrap();
